@@ -84,7 +84,7 @@ VARIANTS = [("%s,%s,segments=%d,%s,%s" % (mode, own, K, fail.__name__ if fail el
 
 
 @harness("read_metadata", "reader.TdmsReader.read_metadata", ["C09", "C20", "C01"], variants=VARIANTS,
-         setup=_setup, level="shape-bounded",
+         setup=_setup, level="shape-bounded", replay=lambda md, vp, model, st: _replay_walk(md, vp, model, st),
          bound="<= 3 segments in the stream; offsets symbolic; failure injected at every segment boundary")
 def _read_metadata(vc):
     mode, own, K, fail, want_index = vc.variant
@@ -290,6 +290,50 @@ def _setup_all(interp):
                     "__locals__": ("start_position", "segment", "properties")}, name="segments")
 
 
+def _replay_walk(md, vparam, model, st):
+    """resource clauses of read_metadata on a real two-segment file: a caller's index stream stays open, an index
+    file the library opened itself is closed again, the data stream is left open"""
+    mode, own = vparam[0], vparam[1]
+    script = """
+import io, os, sys, tempfile
+import numpy as np
+from nptdms import TdmsWriter, TdmsFile, ChannelObject
+from nptdms.reader import TdmsReader
+data, index = io.BytesIO(), io.BytesIO()
+with TdmsWriter(data, index_file=index) as w:
+    w.write_segment([ChannelObject("g", "c", np.arange(3, dtype=np.int32))])
+    w.write_segment([ChannelObject("g", "c", np.arange(2, dtype=np.int32))])
+mode, own = %r, %r
+bad = []
+if own == "borrowed":
+    d = io.BytesIO(data.getvalue()); i = io.BytesIO(index.getvalue())
+    rd = TdmsReader(i if mode == "index" else d)
+    if mode == "both":
+        rd._index_file = i
+    rd.read_metadata()
+    if mode in ("index", "both") and i.closed:
+        bad.append("caller's index stream was closed by read_metadata")
+    if mode in ("data", "both") and d.closed:
+        bad.append("caller's data stream was closed by read_metadata")
+else:
+    tmp = tempfile.mkdtemp()
+    p = os.path.join(tmp, "x.tdms")
+    open(p, "wb").write(data.getvalue()); open(p + "_index", "wb").write(index.getvalue())
+    before = set(os.listdir("/proc/self/fd"))
+    rd = TdmsReader(p + "_index" if mode == "index" else p)
+    rd.read_metadata()
+    if rd._index_file is not None and not rd._index_file.closed:
+        bad.append("index file opened by the library still open after read_metadata")
+    rd.close()
+    if set(os.listdir("/proc/self/fd")) != before:
+        bad.append("descriptor leak after close")
+print(bad or "resources as contracted")
+sys.exit(1 if bad else 0)
+""" % (mode, own)
+    return {"script": script, "function": "reader.TdmsReader.read_metadata"}
+
+
+
 VARIANTS_ALL = [("%s,%s,%s,%s" % (mode, own, fail.__name__ if fail else "ok", "index" if wi else "noindex"),
                  (mode, own, fail, wi))
                 for mode in ("data", "index", "both") for own in ("owned", "borrowed")
@@ -297,7 +341,7 @@ VARIANTS_ALL = [("%s,%s,%s,%s" % (mode, own, fail.__name__ if fail else "ok", "i
 
 
 @harness("read_metadata_all_segments", "reader.TdmsReader.read_metadata", ["C09", "C20", "C01", "C04"],
-         variants=VARIANTS_ALL, setup=_setup_all,
+         variants=VARIANTS_ALL, setup=_setup_all, replay=_replay_walk,
          note="the metadata walk for ANY number of segments (while-loop invariant; _segments as a list of symbolic "
               "length): segment k is read at its data-file position POS(k) with the cursor at POS(k) (data) or "
               "IDXPOS(k) (index stream), recorded in order, metadata/properties updated once per segment, the "
